@@ -92,7 +92,7 @@ pub fn gen_model(rng: &mut Rng, size: usize, with_range: bool) -> Value {
     let (mut line, mut col) = (0i64, 0i64);
     for _ in 0..ntok {
         match rng.below(10) {
-            0 => { line += 1 + rng.range(0, 3); col = rng.range(0, 5); }
+            0 => { line += if rng.chance(1, 8) { 64 * rng.range(1, 3) } else { 1 + rng.range(0, 3) }; col = rng.range(0, 5); }
             1 | 2 => {}                                   // same position as the previous token
             _ => { col += rng.range(1, 30); }
         }
